@@ -318,8 +318,8 @@ Theorem imp_bed_Reader_ok fuel s : (length s + 2 < fuel)%nat ->
   exists st, imp_bed_Reader fuel (Stream s tc None) = Ret (st, map bed_item (Bed.decode s t)).
 Proof.
   intros Hf. unfold imp_bed_Reader. cbv zeta.
-  change (go_while fuel _ _ (Imp_bed_reader 0, [], ?st))
-    with (go_while fuel (fun _ => Ret true) (ro_body fuel) (rdr 0, [], st)).
+  timeout 120 (change (go_while fuel _ _ (Imp_bed_reader 0, [], ?st))
+    with (go_while fuel (fun _ => Ret true) (ro_body fuel) (rdr 0, [], st))).
   destruct (ro_loop fuel (length s) s 0%nat [] fuel (le_n _)) as (st & Hst); [lia|lia|].
   rewrite Hst. exists st. reflexivity.
 Qed.
